@@ -9,6 +9,7 @@ import Driver.Ops.FileSpec
 import Driver.Ops.FileWrite
 import Driver.Ops.Lz4
 import Driver.Ops.Par
+import Driver.Ops.ParDict
 import Driver.Ops.Plain
 import Driver.Ops.RefRead
 import Driver.Ops.Rle
@@ -18,6 +19,7 @@ import Driver.Ops.Sink
 import Driver.Ops.Snappy
 import Driver.Ops.Stats
 import Driver.Ops.Thrift
+import Driver.Gen.ParDict
 import Driver.Gen.RefFiles
 /-
 Line-protocol driver.  One harness line in (operation, inputs, and what the real code
@@ -36,6 +38,7 @@ def handlers : List (Line → Option Verdict) :=
     Driver.Ops.FileWrite.handle,
     Driver.Ops.Lz4.handle,
     Driver.Ops.Par.handle,
+    Driver.Ops.ParDict.handle,
     Driver.Ops.Plain.handle,
     Driver.Ops.RefRead.handle,
     Driver.Ops.Rle.handle,
@@ -66,7 +69,8 @@ partial def loop (h : IO.FS.Stream) (out : IO.FS.Stream) : IO Unit := do
 /-- Generators (`driver --gen <name> <seed> <quick|thorough>`): the Lean side produces inputs for
 the real code (reference-written files for C06); each returns the lines to hand to the harness. -/
 def generators : List (String × (Nat → Bool → List String)) :=
-  [ ("reffiles", Driver.Gen.RefFiles.gen) ]
+  [ ("pardict", Driver.Gen.ParDict.gen),
+    ("reffiles", Driver.Gen.RefFiles.gen) ]
 
 def main (args : List String) : IO Unit := do
   let out ← IO.getStdout
